@@ -123,6 +123,20 @@ void check_visitor(const std::string &dir_abs, const std::string &dir_rel, const
     if (cwd() != home) { bad("visitor:restore-empty", "an unused visitor changed the working directory"); fs::current_path(home); }
     { tulz::DirectoryVisitor v{Path(dir_rel)}; v.restore(); if (cwd() != home) bad("visitor:explicit-restore", "restore() did not return to the previous directory"); }
     if (cwd() != home) fs::current_path(home);
+    // one visitor object used twice: the second visit starts from another working directory, and that is the one to come back to
+    {
+        std::string d1 = canon(dir_abs);        // (the harness runs with the tree's root as working directory: the second visit starts from inside the directory and goes to the root)
+        {
+            tulz::DirectoryVisitor v{Path(dir_abs)}; shm->transitions++;
+            v.restore();
+            if (cwd() != home) bad("visitor:explicit-restore", "restore() did not return to the previous directory");
+            fs::current_path(dir_abs);
+            v.set(Path(other_abs)); v.visit(); shm->transitions++;
+            if (cwd() != canon(other_abs)) bad("visitor:reuse-enter", "a re-used visitor did not enter its directory");
+        }
+        if (cwd() != d1) bad("visitor:reuse-restore", fmt("a visitor that was used a second time, from %s, left the working directory at %s when it was destroyed", d1.c_str(), cwd().c_str()));
+        fs::current_path(home);
+    }
 }
 
 void walk(const Forest &f, const std::string &abs, const std::string &rel, int depth, const std::string &root_abs) {
